@@ -77,6 +77,17 @@ def stepI (retention : Int) (σ : Inst) (op obs : List String) : Inst × List Ms
           | some q => if q.ts < now then [.propfail "log_spec" "log-not-newest" s!"key={key} stored ts {q.ts} < now {now}"] else []
           | none => [.propfail "log_spec" "log-lost" s!"key={key} absent after Log"])
     ({ σ with st := st', implPrev := cur }, expectEq "log.bcast" mb bc ++ expectEq "log.dump" (dump st') dmp ++ pf ++ tags)
+  | ["logbad", _now, key], [res, dmp] =>
+    -- a Log call whose entry cannot be encoded returns an error and leaves the log as it was (log_spec: the log holds
+    -- what was logged or received, nothing else)
+    let cur := parseEntries dmp
+    let pf : List Msg :=
+      -- (Log answers nil without encoding anything when the key holds an entry from the future: nothing to check then)
+      (if res == "error" || (match lookup σ.st key with | some p => decide (p.ts > toInt! _now) | none => false) then [] else
+         [Msg.propfail "log_spec" "unencodable-entry-accepted" s!"key={key}: Log of an entry that cannot be serialised returned no error"])
+      ++ (if dmp = dump σ.st then [] else [Msg.propfail "log_spec" "failed-log-changed-state"
+            s!"key={key}: Log failed, yet the log is no longer what it was: {if dmp = "unmarshalable" then "it cannot be serialised any more (no snapshot, no full-state exchange)" else dmp}"])
+    ({ σ with implPrev := if dmp = "unmarshalable" then σ.implPrev else cur }, pf ++ [.tag "log:unencodable"])
   | ["merge", now, ov, batch], [nb, dmp] =>
     let now := toInt! now
     let b := parseEntries batch
